@@ -576,10 +576,30 @@ func main() {
 	}
 
 	// ---- 8. operation sequences on one Raw and one Decoded object
-	nq := run.Count(260, 6000)
+	nq := run.Count(200, 6000)
 	for i := 0; i < nq; i++ {
 		r := rng.Fork(uint64(600000 + i))
 		jobs = append(jobs, func() { seqCase(run, r, i) })
+	}
+
+	// spread the kinds evenly over the shards: visit the jobs with a stride coprime to their number
+	// (deterministic, so ids stay replayable for a given tier)
+	if len(jobs) > 1 {
+		gcd := func(a, b int) int {
+			for b != 0 {
+				a, b = b, a%b
+			}
+			return a
+		}
+		stride := 7919 % len(jobs)
+		for stride < 2 || gcd(stride, len(jobs)) != 1 {
+			stride++
+		}
+		perm := make([]job, len(jobs))
+		for k := range jobs {
+			perm[k] = jobs[(k*stride)%len(jobs)]
+		}
+		jobs = perm
 	}
 
 	// ---- 3. accept tables, interleaved evenly among the other jobs (so that the shards are balanced)
